@@ -1,3 +1,4 @@
+import os
 from pathlib import Path
 from typing import Optional, Union
 
@@ -284,9 +285,14 @@ class SamplerCore:
             print(f"Error while saving state: {e}")
             raise
 
-        # Save to file
-        with open(path, "wb") as f:
+        # Save to file atomically: a crash during the write must never leave a
+        # truncated file under the checkpoint's final name
+        tmp_path = path.with_name(path.name + ".tmp")
+        with open(tmp_path, "wb") as f:
             dill.dump(d, f)
+            f.flush()
+            os.fsync(f.fileno())
+        os.replace(tmp_path, path)
         _verif.emit("save_end", core=self, path=path)
 
     def load_sampler_state(self, path: Union[str, Path]):
